@@ -62,6 +62,10 @@ def cases(tier, seed):
     step = 10 if tier == "quick" else 25
     for lo in range(1, N + 1, step):
         out.append(("order", (lo, min(N, lo + step - 1))))
+    if tier == "quick":
+        out.append(("order", (998, 1002)))  # around the next power of ten as well
+    else:
+        out.append(("order", (9999, 10001)))
     out.append(("gif", (3, "gif")))
     out.append(("gif", (12, "gif")))
     if tier != "quick":
@@ -169,9 +173,13 @@ def inspect_chart(res, spec, ref, st, schedule, xlim_req, hist):
 
 
 def run_charts(res, spec):
+    import matplotlib.pyplot as plt
+    from job_shop_lib.visualization import get_partial_gantt_chart_plotter
+
     ref = Ref(spec)
     inst = impl.mk_instance(spec)
     seen = set()
+    plotter = get_partial_gantt_chart_plotter()  # one plotter for all states, as a creator/env keeps it
     for hist in ref.all_histories(complete_only=False):
         st = ref.state(hist)
         key = st.canon()
@@ -186,6 +194,20 @@ def run_charts(res, spec):
             if len(hist) >= 2 and len({j for j, _ in hist}) >= 2:
                 res.add("nontrivial")
             inspect_chart(res, spec, ref, st, d.schedule, xl, hist)
+        # the same plotter object reused for many schedules (makespans go up and
+        # down along the traversal): each chart shows ITS schedule
+        fig = plotter(d.schedule, None, d.available_operations(), d.current_time())
+        try:
+            ax = fig.axes[0]
+            mk = st.makespan()
+            lo, hi = ax.get_xlim()
+            n_bars = len(ax.collections) + len([p for p in ax.patches if hasattr(p, "get_width")])
+            if mk > 0 and not (close(lo, 0) and close(hi, mk)):
+                res.violation("gantt_chart_matches_schedule", "reused-plotter-x-axis-wrong", spec=spec, history=hist, observed=(lo, hi), expected=(0, mk))
+            if n_bars != len(st.where):
+                res.violation("gantt_chart_matches_schedule", "reused-plotter-number-of-bars", spec=spec, history=hist, bars=n_bars, scheduled=len(st.where))
+        finally:
+            plt.close(fig)
     res.add("states", len(seen))
     res.add("traces", len(seen))
     if ref.N >= 3 and ref.J >= 2 and len(res.samples) < 1:
